@@ -238,6 +238,12 @@ def get_attr(st, obj, attr, n=None):
         if cc is not None:
             return cc
         raise Undecided('no contract %s.%s' % (cls, attr))
+    if k == 'super':
+        cls, recv = obj.z
+        for c in R.mro(cls)[1:]:
+            if ('%s.%s' % (c, attr)) in R.CONTRACTS:
+                return Val(T.FN, FnV('bound', attr, recv=Val(T.TRef(c), recv.z), cls=c))
+        raise Undecided('super(%s, ...).%s: no contract along the MRO' % (cls, attr))
     if k in ('list', 'set', 'dict', 'str', 'bytes', 'seq', 'tuple'):
         return Val(T.FN, FnV('builtin_method', attr, recv=obj))
     if k == 'none':
